@@ -106,3 +106,21 @@ Section CacheSpec.
   Definition remove_file (name : str) (fs : list File) : list File :=
     filter (fun g => negb (str_eqb (fname g) name)) fs.
 End CacheSpec.
+
+(* ---------- the per-file directive cache of the language server (after /repo 4817eed) ---------- *)
+Section DirCacheSpec.
+  Variable File : Type.
+  Variable fname : File -> str.
+  Variable fcomments : File -> list comment.
+
+  (* Cache.Delete *)
+  Definition gm_delete (g : gomap) (name : str) : gomap :=
+    filter (fun fo => negb (str_eqb (fst fo) name)) g.
+
+  (* what SetFileIgnoreDirectives stores for a file: report.IgnoreDirectives[file] of its lint *)
+  Definition file_dirs (f : File) : strmap := stringify (directive_entries (fcomments f)).
+
+  (* the cache answers like the directives of one run over the current files *)
+  Definition dirs_represent (g : gomap) (fs : list File) : Prop :=
+    forall name, gm_get g name = gm_get (carry (results_of File fname fcomments fs)) name.
+End DirCacheSpec.
